@@ -260,3 +260,41 @@ def normalise(P, max_sites=1, max_size=400, depth=4, only_files=None, one_caller
         if not progressed:
             break
     return done
+
+
+_EXP = {}
+
+
+def expanded(P, fname, max_size=2500, depth=4):
+    """a private view of function `fname` in which its static, same-file, non-recursive callees (any number of call sites) are inlined;
+    the program itself is not changed.  For rules that are about one routine's algorithm (the stop sequence, the initial-value loop):
+    it makes no difference to them whether a step is written out or lives in a static helper."""
+    key = (id(P), fname)
+    if key in _EXP:
+        return _EXP[key]
+    f = P.functions[fname]
+    at = P.addr_taken()
+
+    def pred(g):
+        if not g.internal or g.relfile != f.relfile or g.name in at or g.name == fname:
+            return False
+        if sum(len(b.insts) for b in g.blocks) > max_size:
+            return False
+        # not recursive
+        seen, work = set(), [g.name]
+        while work:
+            n = work.pop()
+            h = P.functions.get(n)
+            if h is None or not h.blocks:
+                continue
+            for c in h.calls():
+                if c.callee == g.name:
+                    return False
+                if c.callee in P.functions and c.callee not in seen:
+                    seen.add(c.callee)
+                    work.append(c.callee)
+        return True
+    got, nf = inline_helpers(P, fname, pred, depth=depth, replace=False)
+    res = nf if nf is not None else f
+    _EXP[key] = res
+    return res
